@@ -28,19 +28,19 @@ ASSUMPTIONS = ["polarisation annotations are stored in single precision by exqal
                "matrices are compared at 1e-6, circuit matrices at 1e-9",
                "the model decides equality / orthogonality of Jones vectors exactly; the implementation uses == on "
                "floats and |<v1,v2>| < 1e-6 (generated non-orthogonal pairs have |<v1,v2>| > 1e-2)"]
-EXPLANATION = ("The model is faithful to the code as it is: a sub-circuit without components contributes eye(m) "
-               "instead of eye(2m) in polarised mode, and the vacuum yields no preparation matrix. Both are refuted "
-               "in Coq (C13_*_refuted) and reported here as findings. Two polarisations in one mode are accepted by "
-               "the exact model and by convert_polarized_state but rejected by the simulator (float32 annotations "
-               "vs. the 1e-8 tolerance of Unitary's unitarity assertion): a floating-point defect the exact model "
-               "cannot exhibit, found by the correspondence stream.")
+EXPLANATION = ("Three defects found by this check were repaired in /repo (e38f1486 empty circuit in polarised mode, "
+               "53c82d36 vacuum input, 19d38de0 two polarisations in one mode rejected by a float32-vs-1e-8 unitarity "
+               "assertion). The model follows the repaired code (the second column of a two-vector block is the "
+               "complement of the first times the phase <c, v2>; proved equal to the second vector for normalised "
+               "orthogonal pairs); the pre-repair configuration is kept as *_old with its refutation witnesses, "
+               "which stay in the corpus as regression guards.")
 
 SQ2 = math.sqrt(2.0)
-# Model configuration. False = the code as it is in /repo (function ids 1300-1303); set to True once the two
-# repairs described in known_findings.json (empty circuit -> eye(2m); vacuum -> identity preparation matrix)
-# are committed to /repo: the repaired model (1310-1313, theorems C13_*_repaired) is then the reference.
-REPAIRED = False
-F_UNITARY, F_CONVERT, F_PROBS, F_SPEC = (1310, 1311, 1312, 1313) if REPAIRED else (1300, 1301, 1302, 1303)
+# Function ids 1300-1304 = the model of the code as it is now (after the fix commits e38f1486, 53c82d36, 19d38de0 in
+# /repo); 1310-1313 = the historical model of the code before them (kept for the *_old_code theorems).
+F_UNITARY, F_CONVERT, F_PROBS, F_SPEC = 1300, 1301, 1302, 1303
+# signatures of the three repaired defects (known_findings.json: fixed). Fixed entries suppress nothing: if one of
+# them comes back the corpus witnesses below fail under these (or a mismatch) signatures and the check reports a VIOLATION.
 SIG_EMPTY = "compute_unitary(use_polarization=True):empty-circuit-identity-not-doubled"
 SIG_TWOPOL = "probs:two-polarisations-in-one-mode:AssertionError-not-unitary"
 SIG_VACUUM = "probs:vacuum-polarised-input:ValueError-matmul-None"
@@ -407,6 +407,8 @@ def check_convert(state, mout):
         if obs[2] is not None:
             return [("convert-vacuum-matrix", "model predicts no preparation matrix for the vacuum", "None", "matrix")]
         return []
+    if obs[2] is None:
+        return [("convert-no-preparation-matrix", "convert_polarized_state returned no preparation matrix (vacuum)", "identity", "None")]
     P = np.array(obs[2])
     Pm = np.array([[un_q2(e) for e in row] for row in mout[2]], dtype=complex)
     if P.shape != Pm.shape or not np.allclose(P, Pm, atol=1e-6, rtol=0):
@@ -445,7 +447,7 @@ def check_probs(node: Node, state, rows, mout, extra=True):
             return (type(e).__name__, str(e))
     res = run(lambda: SimulatorFactory.build(c).probs(state))
     if status in (1, 4):
-        return []          # circuits with empty sub-circuits: the matrix stream reports them
+        return [("model-status", "model reports a failing circuit evaluation (cannot happen in the current configuration)", 0, status)]
     if status == 2:
         if res[0] != "ValueError":
             return [("probs-bad-input-accepted", "non-orthogonal / more than two polarisations in a mode not rejected with ValueError", "ValueError", str(res)[:300])]
@@ -640,7 +642,7 @@ def run(ctx):
         r = rng.fork(("sim", i))
         m = r.rint(1, mmax)
         tree = rand_tree(r, m, empties=False, need_polar=True)
-        kind = r.choice(["single"] * 8 + ["pair"] * 2 + ["bad"]) if i % 25 else "vacuum"
+        kind = r.choice(["single"] * 5 + ["pair"] * 5 + ["bad"]) if i % 25 else "vacuum"
         spec = rand_input(r, m, labels, nmax if m <= 3 else min(nmax, 3), kind)
         sims.append((tree, spec, kind))
     prepared = []
@@ -768,7 +770,15 @@ def corpus_sims(labels):
     t2 = Node(2, None, None, items=[(0, wp), (0, pbs), (1, qwp)], kind="sub")
     ell = make_elliptical(Ang(8, 15, 17), Fraction(3, 5), Fraction(4, 5))
     H, V, D, L = labels["H"], labels["V"], labels["D"], labels["L"]
-    return [(t1, InputSpec([[H, V], []]), "pair"),            # minimal witness of the two-polarisation defect
+    A, Rr = labels["A"], labels["R"]
+    al = Ang(8, 15, 17)
+    e1 = make_elliptical(al, Fraction(3, 5), Fraction(4, 5))
+    e2 = complement((al, Fraction(3, 5), Fraction(4, 5)))
+    return [(t1, InputSpec([[H, V], []]), "pair"),            # minimal witness of the (repaired) two-polarisation defect
+            (t2, InputSpec([[D, A, D], []]), "pair"),
+            (t2, InputSpec([[H], [L, Rr]]), "pair"),
+            (t2, InputSpec([[e1, e2], [ell]]), "pair"),       # elliptical vector + exact complement, asymmetric elements
+            (t2, InputSpec([[e2, e1, e2], []]), "pair"),
             (t1, InputSpec([[], []]), "vacuum"),
             (t1, InputSpec([[H], [V]]), "single"),
             (t2, InputSpec([[ell], [L]]), "single"),
